@@ -186,7 +186,7 @@ impl Scenario for Net1 {
                 let ct = hs::n2c::VersionTable { values: theirs.iter().map(|x| (x.0, d(x.2, x.1))).collect() };
                 let mut server = hs::N2CServer::new(sch);
                 let mut client = hs::N2CClient::new(cch);
-                let srv = tokio::spawn(chaos(async move { server.handshake(st).await.map(|_| ()).map_err(|e| e.to_string()) }, &sh, (1, 8)));
+                let srv = tokio::spawn(chaos_auto(async move { server.handshake(st).await.map(|_| ()).map_err(|e| e.to_string()) }, &sh, (1, 8)));
                 let c = client.handshake(ct).await;
                 let _ = srv.await;
                 match c {
@@ -211,7 +211,7 @@ impl Scenario for Net1 {
                 let ct = hs::n2n::VersionTable { values: theirs.iter().map(|x| (x.0, d(x.2, x.1))).collect() };
                 let mut server = hs::N2NServer::new(sch);
                 let mut client = hs::N2NClient::new(cch);
-                let srv = tokio::spawn(chaos(async move { server.handshake(st).await.map(|_| ()).map_err(|e| e.to_string()) }, &sh, (1, 8)));
+                let srv = tokio::spawn(chaos_auto(async move { server.handshake(st).await.map(|_| ()).map_err(|e| e.to_string()) }, &sh, (1, 8)));
                 let c = client.handshake(ct).await;
                 let _ = srv.await;
                 match c {
